@@ -67,6 +67,9 @@ pub struct Sc {
     pub extras_pre: Vec<String>,
     #[serde(default)]
     pub extras_global: Vec<String>,
+    /// `-daystart` written after the time tests: it only concerns tests that follow it
+    #[serde(default)]
+    pub daystart_after: bool,
 }
 
 /// Set `which` ('a' or 'm') of `file` (None = the reference file) to the real
@@ -251,6 +254,7 @@ impl Property for C15 {
         let mut ex = FindScenario::new(TreeSpec::default(), vec![]);
         ex.gen_extras(rng, true);
         Sc {
+            daystart_after: rng.chance(1, 8),
             extras_pre: ex.extras_pre,
             extras_global: ex.extras_global,
             files,
@@ -495,6 +499,10 @@ impl Property for C15 {
         if let Some(t2) = &sc.second {
             argv.extend(t2.args());
         }
+        if sc.daystart_after {
+            argv.push("-daystart".into());
+            rep.probe("daystart_after_the_time_tests");
+        }
         argv.push("-print0".into());
         let mut find = FindScenario::new(TreeSpec::default(), argv.clone());
         find.extras_pre = sc.extras_pre.clone();
@@ -563,6 +571,11 @@ impl Property for C15 {
         if sc.follow.is_some() {
             let mut s = sc.clone();
             s.follow = None;
+            out.push(s);
+        }
+        if sc.daystart_after {
+            let mut s = sc.clone();
+            s.daystart_after = false;
             out.push(s);
         }
         if sc.files.len() > 1 {
